@@ -7,6 +7,11 @@ V = Path(__file__).resolve().parent.parent
 TECH = "TLA+ specification model-checked with TLC, bound to the implementation by trace validation (TLC checks recorded implementation traces against the abstract spec) and replay of TLC-generated cases/behaviours"
 
 CLAIMS = {
+    "C18": {
+        "text": "Specification LogBridge. log -> tracing: a record handed to LogTracer (with an ignore list) while collector `cur` is current becomes exactly one event iff `cur` accepts the RECORD's level and target (level acceptance announced through max_level_hint, checked in enabled(), both, or neither) and the target is under no ignored prefix; M is the code's gate chain (record level <= LevelFilter::current(), ignore list, cur.enabled(record metadata) in LogTracer::enabled and again in dispatch_record) and TLC checks M == A for 96 collectors x 8 ignore lists x 5 levels x 7 targets. tracing -> log: ghost `ever` (a collector has been installed at some point) against the EXISTS flag over every install / drop history (negative control: flag reset on drop). Binding, one OS process per trace: (l2t) LogTracer with 4 ignore lists, rounds of 6 filtering collectors (cap x target prefix x hint x level-in-enabled x installed or not) x 20 records (5 levels x 7 targets x 8 messages x file/line/module present or absent, direct or via log!): Log::enabled's answer, event count, normalized target / level / file / line / module and the message are validated by TLC; (t2l) the generated macro corpus of C10 compiled WITH tracing's log feature: histories of callsites with the first scoped / global installation at varying positions, drops and re-installations, plus a sweep of all 2128 compiling callsites in processes that never install a collector; each step's log records (level, target, text projection) are validated against ExpectedRecords (event: one record; span: creation, each record of a declared field, enter, exit, close) before the first installation and must be empty afterwards; plus the level conversion tables.",
+        "note": "Record text is projected by substring tests (message, `name=` of every present field, span name). Span creation may use either the span's target or tracing::span (both accepted). log-always and a second live dispatcher raising the global max level are not exercised. Separate cargo workspace /verif/harness-log so that tracing's log feature is not unified into the other drivers.",
+        "ref": "4 (C18)",
+    },
     "C10": {
         "text": "Specification Fields: a callsite declaration (macro kind, level, declared fields in order with name form / value form / type / value slot, format-string message, later Span::record calls) determines the ONLY visit sequence (message first, then the present fields in declaration order, each once, through the documented typed route TypeRoute with exactly the canonical / Display / Debug text of the supplied value) and the ONLY evaluation counts (once when enabled, none when disabled by Interest::never, enabled()=false or the max-level hint; shorthand values bound outside the macro always once) the property allows; MCFields is the macro expansion as a step machine (three gates, element-by-element array construction, ValueSet::record) checked by TLC against it for every callsite shape of <= 2 fields x 4 value forms x 4 message forms x 4 collector modes. Binding: a generated corpus of 2241 real macro callsites (span!, event!, the ten level shorthands, enabled!; name forms ident / dotted / string literal / r# / {CONST}; value forms =, =%, =?, Empty, shorthand, %shorthand, ?shorthand; positions alone / before a field / before a message / braced; prefixes name: / target: / parent:; 53 value types incl. all integer widths, NonZero, Wrapping, floats, strings, bytes, the four dyn Error flavours, Box, references, display()/debug() wrappers; later Span::record of declared and undeclared names) is compiled against /repo and run under four collectors with boundary and random value assignments; a typed recording Visit logs (name, method, exact text), counters log every evaluation; TLC validates every run against Fields.",
         "note": "254 generated forms are rejected by the macros at compile time (listed with the compiler message in harness/vh/corpus/macros_skip.json) and are not part of the corpus. Built without tracing's `log` feature; compile-time max_level_* features are not exercised. Display/Debug texts of sigil fields use an alphabet whose Rust formatting is known to the generator; typed fields use arbitrary Unicode / bit patterns.",
